@@ -15,7 +15,8 @@ RULE = ("X25519: full cross product of a scalar alphabet (0,1,2,7,8,2^254,2^254+
         "with and without SSE, generic); oracle = RFC 7748 ladder on Python integers: return -1 iff the shared point is zero, output "
         "equal otherwise; scalarmult_base = X25519(n, 9). Key agreement: 24x24 key pairs: both directions equal the reference, "
         "box_beforenm = HSalsa20(q,0), xchacha beforenm = HChaCha20(q,0), kx session keys cross-equal and = BLAKE2b-512(q||cpk||spk), "
-        "low-order peer keys refused; box/kx seed_keypair = documented hash of the seed for 6 seed patterns x lengths. Every "
+        "low-order peer keys refused; ~120 (scalar, point) pairs constructed backwards so that the SHARED SECRET has exactly one non-zero byte at each "
+        "byte position / one non-zero word / is 1..4 or p-1..p-3 (must be returned, and accepted by box_beforenm); box/kx seed_keypair = documented hash of the seed for 6 seed patterns x lengths. Every "
         "(scalar, point, backend) is one distinct case compared with the reference.")
 
 META = {
@@ -90,6 +91,47 @@ def point_alphabet():
     return list(dict.fromkeys(enc))
 
 
+L_TWIST = 2**253 - 55484635554744707071703875581767296995      # prime factor of the twist order 4*L_TWIST
+
+
+def structured_outputs():
+    """(scalar, point, expected) triples whose SHARED SECRET is structured: exactly one non-zero byte at every byte position, one
+    non-zero 64-/32-bit word, 1, and values just below p. Built backwards: pick the target u, check that its point has prime order
+    (curve: L, twist: L_TWIST; a clamped scalar is a multiple of the cofactor, so only such points are reachable), then
+    point = [n^-1 mod order] target. Exercises the all-zero test of the result with near-zero outputs."""
+    import ec25519 as ec
+    out = []
+    scalars = [pat("R1", 32, 21), pat("C", 32, 22)]
+    targets = []
+    for j in range(32):
+        for k in (1, 2, 0x80, 0xff, 3, 5, 7, 11):
+            targets.append((k << (8 * j)) % (1 << 255))
+    for w in range(4):
+        targets += [((1 << 64) - 1) << (64 * w) & ((1 << 255) - 1), 0x0123456789abcdef << (64 * w) & ((1 << 255) - 1)]
+    for w in range(8):
+        targets.append(0xdeadbeef << (32 * w) & ((1 << 255) - 1))
+    targets += [P - 1, P - 2, P - 3, 1, 2, 3, 4]
+    seen_pos = {}
+    for t in targets:
+        t %= P
+        if t == 0:
+            continue
+        rhs = (t * t * t + 486662 * t * t + t) % P
+        order = L if pow(rhs, (P - 1) // 2, P) == 1 else L_TWIST
+        # prime-order test: [order-1]T must have T's u-coordinate (the ladder's 0 cannot tell infinity from the 2-torsion point (0,0))
+        if ec.mont_ladder(order - 1, t, 255) != t:    # not in the prime-order subgroup: unreachable with a clamped scalar
+            continue
+        key = t.bit_length() // 8 if bin(t).count("1") <= 8 else None
+        if key is not None and seen_pos.get(key, 0) >= 2:
+            continue
+        if key is not None: seen_pos[key] = seen_pos.get(key, 0) + 1
+        for s in scalars:
+            n = ec.clamp(s)
+            pt = ec.mont_ladder(pow(n, -1, order), t, 255)
+            out.append((s, le(pt), le(t)))
+    return out
+
+
 def _ref_row(args):
     import ec25519 as ec
     s, pts = args
@@ -97,13 +139,13 @@ def _ref_row(args):
 
 
 def _backend_worker(args):
-    variant, cfg, S, Pts, ref, kpairs = args
+    variant, cfg, S, Pts, ref, kpairs, struct = args
     import ctypes
     lib = pylib.load_sodium(variant, cfg)
     vref = pylib.load_ref()
     feats = pylib.features(lib)
     fails, n = [], 0
-    q = pylib.buf(32)
+    q = pylib.buf(32); k1b = pylib.buf(32)
     tag = "%s[%s]" % (variant, "-" + cfg if cfg else "all")
     for i, s in enumerate(S):
         for j, p in enumerate(Pts):
@@ -127,6 +169,13 @@ def _backend_worker(args):
             fails.append(("crypto_scalarmult_base/%s/n=%s" % (tag, s.hex()), "ret %d got %s want %s" % (r, q.raw.hex(), want.hex())))
         if len(fails) > 20:
             break
+    # structured shared secrets (near-zero outputs): must be returned, not mistaken for the all-zero point
+    for s, p, want in struct:
+        r = lib.crypto_scalarmult(q, s, p); n += 1
+        if r != 0 or q.raw != want:
+            fails.append(("crypto_scalarmult-structured-output/%s/n=%s/p=%s" % (tag, s.hex(), p.hex()), "ret %d got %s want %s (non-zero shared secret)" % (r, q.raw.hex(), want.hex())))
+        if lib.crypto_box_beforenm(k1b, p, s) != 0:
+            fails.append(("crypto_box_beforenm-structured-output/%s/n=%s/p=%s" % (tag, s.hex(), p.hex()), "valid peer key refused (shared secret %s)" % want.hex()))
     # key agreement on the key-pair table
     zero16 = bytes(16); k1 = pylib.buf(32); k2 = pylib.buf(32); rx = pylib.buf(32); tx = pylib.buf(32); rx2 = pylib.buf(32); tx2 = pylib.buf(32)
     exp = pylib.buf(32)
@@ -192,7 +241,10 @@ def main(tier):
     for v in sorted(set(v for v, _ in BACKENDS)):
         build.build(v)                      # build in the parent: the workers must only load
     pylib.load_ref()
-    outs = pylib.pool_map(_backend_worker, [(v, c, S, Pts, ref, kpairs) for v, c in BACKENDS], len(BACKENDS))
+    struct = structured_outputs()
+    for s_, p_, w_ in struct:                     # the construction itself is validated against the plain RFC 7748 ladder
+        assert ec.x25519(s_, p_) == w_, "structured-output construction is wrong"
+    outs = pylib.pool_map(_backend_worker, [(v, c, S, Pts, ref, kpairs, struct) for v, c in BACKENDS], len(BACKENDS))
     total = 0; tags = []
     for tag, feats, n, fails in outs:
         total += n; tags.append("%s avx=%d sse2=%d" % (tag, feats["avx"], feats["sse2"]))
@@ -203,6 +255,6 @@ def main(tier):
                    "crypto_scalarmult n=%s p=%s (low order) -> must return -1" % (S[3].hex(), Pts[0].hex()),
                    "crypto_scalarmult n=%s p=%s (p+2 with bit 255 set: reduced to 2, top bit ignored) -> %s" % (S[20].hex(), le((P + 2) | 1 << 255).hex(), ec.x25519(S[20], le((P + 2) | 1 << 255)).hex())]
     cov = {"evaluations": total, "distinct_nontrivial": total, "rule": RULE, "exhaustive": True, "scalars": len(S), "points": len(Pts),
-           "reference_zero_results": zero, "key_pairs": nk, "backends": tags}
+           "reference_zero_results": zero, "key_pairs": nk, "structured_output_cases": len(struct), "backends": tags}
     common.finish("C05", tier, "exploration", res, cov,
                   ["values outside the structured alphabets are not covered", "reference: ref/ec25519.py RFC 7748 ladder"], t0)
